@@ -138,8 +138,11 @@ def RandomKXOR(k, n, m, seed=None, planted_assignments=None, formula_class=CNF):
     if seed is not None:
         if not isinstance(seed, (int, float, str, bytes, bytearray)):
             # any hashable object is a seed: since python 3.11
-            # random.seed() takes just the types above
-            seed = hash(seed)
+            # random.seed() takes just the types above. The text of
+            # the object, not its hash: hashes of strings change from
+            # one process to the next.
+            hash(seed)
+            seed = repr(seed)
         random.seed(seed)
 
     if planted_assignments is None:
